@@ -9,6 +9,20 @@ def T(name, pkg, quick, thorough, **kw):
 
 
 PROPS = {
+    "C02": {
+        "level": "exploration",
+        "tests": [
+            T("TestC02PairGrid", "kv", 1, 1, enum=True),
+            T("TestC02Merge", "kv", 20000, 3200000, shards=16),
+            T("TestC02Update", "kv", 1500, 160000, shards=16),
+        ],
+        "assumptions": [
+            "a deleted version has an empty value (documented MUST for applications)",
+            "with a non-zero stale-marker cutoff the join is not commutative by design; order relations are asserted only over version sets without stale markers",
+            "version-1 snapshots have no deleted flag: their empty-value deletions are not subject to the stale-marker clause",
+            "the default-timestamp use (shadow capture) has a default strictly greater than every stored timestamp",
+        ],
+    },
     "C07": {
         "level": "exploration",
         "tests": [
@@ -45,6 +59,14 @@ PROPS = {
             T("TestC14Parse", "codec", 60000, 6000000, shards=8),
         ],
         "assumptions": ["the header table in docs/schema-native.md is the specification (independent reader in harness/internal/model/header.go)"],
+    },
+    "C19": {
+        "level": "exploration",
+        "tests": [T("TestC19Strategies", "kv", 12000, 1600000, shards=16)],
+        "assumptions": [
+            "iterator decisions are pure functions of (key, stored value); iterators return nil, never an empty slice, for 'no value' (documented Iterator contract)",
+            "little-endian host (integer keys compared as native unsigned integers)",
+        ],
     },
     "C15": {
         "level": "exploration",
